@@ -269,17 +269,28 @@ def h_create(ctx, dev_id):
     allowed = _ref_allowed(dev_id, enforce.e, hgi_id, False)
     regions = {"blocked-active-gateway": z3.And(_bit("blk", dev_id), z3.BoolVal(dev_id == hgi_id))}
     ctx.check(z3.Implies(z3.Not(allowed), z3.BoolVal(not created)), "filter:device-creation", regions=regions)
+    # ... and never over-blocks: an allowed device id (not one that was turned down or found invalid before, not a
+    # broadcast/null address - those are not devices) does get its device, the active gateway included even before
+    # its own device object exists
+    if dev_id[:2] not in ("63", "--"):
+        ctx.check(z3.Implies(z3.And(allowed, z3.Not(_bit("unw", dev_id))), z3.BoolVal(created)), "filter:allowed-device-is-created")
     return "created" if created else "refused"
 
 
+MODE_IDS = ["01:111111", "04:222222", "18:123456", "18:999999"]
+
+
 def h_mode(ctx):
+    """enforcement is in force exactly when it is asked for and there is a known list to enforce - whatever the
+    lists contain (any subset of a controller, a TRV and two gateway ids, with or without an explicit HGI class)"""
+    import symx
     from ramses_tx.schemas import select_device_filter_mode
 
-    for enforce in (False, True):
-        for known in ({}, {"01:111111": {}}):
-            for block in ({}, {"04:222222": {}}):
-                r = select_device_filter_mode(enforce, known, block)
-                ctx.check(r == (enforce and bool(known)), "filter:mode")
+    enforce = symx.flag(ctx, "enforce")
+    known = {i: ({"class": "HGI"} if (i[:2] == "18" and symx.flag(ctx, f"hgi_class[{i}]")) else {}) for i in MODE_IDS if symx.flag(ctx, f"known[{i}]")}
+    block = {i: {} for i in MODE_IDS if symx.flag(ctx, f"block[{i}]")}
+    r = select_device_filter_mode(enforce, known, block)
+    ctx.check(r == (enforce and bool(known)), "filter:mode", info=f"enforce={enforce} known={sorted(known)} block={sorted(block)} -> {r}")
     return "ok"
 
 
@@ -340,6 +351,13 @@ def replay(item):
     async def run():
         got = []
         h = prm["h"]
+        if h == "mode":
+            from ramses_tx.schemas import select_device_filter_mode
+
+            kn = {i: ({"class": "HGI"} if cex.get(f"hgi_class[{i}]") else {}) for i in MODE_IDS if cex.get(f"known[{i}]")}
+            bl = {i: {} for i in MODE_IDS if cex.get(f"block[{i}]")}
+            r = select_device_filter_mode(enforce, kn, bl)
+            return r != (enforce and bool(kn)), f"select_device_filter_mode(enforce={enforce}, known={kn}, block={sorted(bl)}) -> {r}", "filter mode: enforcement dropped / invented"
         if h == "create":
             from ramses_rf.gateway import Gateway
 
@@ -355,6 +373,9 @@ def replay(item):
             except LookupError:
                 created = False
             hgi_id = g._protocol.hgi_id
+            if item["label"] == "filter:allowed-device-is-created":
+                bad = allowed(dev_id, hgi_id, False) and dev_id not in unw and not created
+                return bad, f"dev_id={dev_id} created={created} known={sorted(known)} block={sorted(block)} enforce={enforce} active gateway={gw} (its device exists: {bool(cex.get('hgi_device_exists'))})", "get_device refuses an allowed device id"
             bad = (not allowed(dev_id, hgi_id, False)) and created
             sig = "get_device: a block-listed active gateway still gets a device" if (dev_id in block and dev_id == hgi_id) else "get_device creates a device for a non-allowed id"
             return bad, f"dev_id={dev_id} created={created} known={sorted(known)} block={sorted(block)} enforce={enforce} gateway={gw}", sig
